@@ -30,6 +30,30 @@ CHECKS = {
             "the outcome must equal unifying the reference value.", E1_NOTE, "§2 E1, §3 C13"),
 }
 
+E2_NOTE = ("Trusted base: the reference interpreter harness/src/refsolve.rs (naive CPS depth-first search, no resume state) with the "
+           "reference built-ins, first checked against the repository's own documented answers; the program generators of harness/src/gen.rs; "
+           "the small-scope hypothesis. Programs on which the statements are silent (step budget, occurs check, arithmetic on unbound) are counted and skipped.")
+
+CHECKS.update({
+    "C01": ("e2", "model_checking", "bounded-exhaustive programs x queries x next_solution histories, reference interpreter in lock-step",
+            "All programs of the core (1-2 clauses, and/or trees <= 3 leaves), lists/recursion (all clause and goal orders) and builtins families x queries "
+            "are run to exhaustion on the real engine; every next_solution call is compared with the reference step (answer up to renaming, order, multiplicity); "
+            "solve_all is run as a twin and its strings compared.", E2_NOTE, "§2 E2, §3 C01"),
+    "C02": ("e2", "model_checking", "bounded-exhaustive cut programs x histories vs reference with the documented cut; permitted behaviours enumerated as choice scripts",
+            "`!` at every leaf of every and/or tree <= 4 leaves, 1-3 clauses, caller/sibling wrappers. The reference implements exactly C02's clauses; where C02 is "
+            "silent (re-entering a goal to the right of an executed cut) every permitted behaviour is enumerated and the engine must follow one of them.", E2_NOTE, "§2 E2, §3 C02, §7"),
+    "C03": ("e2", "model_checking", "bounded-exhaustive not(G) programs x histories vs reference interpreter",
+            "not(G) for G over calls, conjunctions, disjunctions, unifications, comparisons, nested not; before/after binding goals; inside and/or; second clauses and callers that backtrack into it.", E2_NOTE, "§2 E2, §3 C03"),
+    "C04": ("e2", "model_checking", "bounded-exhaustive printing programs x histories; stdout captured per call vs reference trace",
+            "print/print_list/nl among backtracking goals: the text written during each next_solution call (fd 1 redirected to a memfd) must equal the reference's trace slice.", E2_NOTE, "§2 E2, §3 C04"),
+    "C05": ("e2", "model_checking", "all E2 families, every history continued 3 calls past the first 'no more'",
+            "Every history of every family (reduced bounds) is re-asked three times after exhaustion: each call must return None and write nothing.", E2_NOTE, "§2 E2, §3 C05"),
+    "C10": ("e2", "model_checking", "all E2 families with a get_rule probe after every call (freshness of renamed variables)",
+            "After every next_solution call a rule is fetched mid-search; none of its fresh variable ids may be live in the answer's substitution set or the query.", E2_NOTE, "§2 E2, §3 C10"),
+    "C11": ("e2", "model_checking", "metamorphic: every history re-run under three alpha-renamings of the clauses",
+            "Each program is re-run with (a) suffixed names, (b) every clause using the query's variable names, (c) $X/$Y swapped; answers (up to renaming), order and output must be identical.", E2_NOTE, "§2 E2, §3 C11"),
+})
+
 NOT_YET = {
 }
 
@@ -66,13 +90,15 @@ def main():
         "hooks": {
             "guard": "suiron_verif",
             "enable": "RUSTFLAGS=\"--cfg suiron_verif\" (set by ./check for the E5 harness only; E1-E4 and E6 run the unmodified crate)",
-            "baseline_off_cmd": "cd /repo && cargo test --workspace --no-fail-fast --offline --lib --bins --tests",
+            "baseline_off_cmd": "cd /repo && cargo nextest run --workspace --no-fail-fast --test-threads 8 --offline",
             "source_commits": hook_commits,
             "add_only": True,
         },
         "engines": [
             {"name": "e1", "path": "harness/src/e1.rs", "serves_properties": ["C06", "C07", "C08", "C09", "C13"],
              "kind_free_text": "explicit-state BFS over real substitution sets; every transition is a real unify call judged against a reference unifier"},
+            {"name": "e2", "path": "harness/src/e2.rs", "serves_properties": ["C01", "C02", "C03", "C04", "C05", "C10", "C11"],
+             "kind_free_text": "bounded-exhaustive programs x queries x call histories executed on the real engine, each call compared with a reference interpreter"},
         ],
         "checks": checks,
         "not_applicable": na,
